@@ -75,6 +75,17 @@ def check_property_theorems(pid):
     return len(names), min(printed, len(names)), sorted(set(axioms)), names
 
 
+def run_coqchk(pid):
+    """Thorough tier: re-check the compiled property module and everything it depends on with the
+    independent checker and list the axioms it relies on."""
+    rc, out = sh(["coqchk", "-silent", "-o", "-Q", "theories", "Ice", "-Q", "proofs", "IceProofs", "-Q", "properties", "IceProps",
+                  "IceProps." + pid], cwd=COQ, timeout=3600)
+    m = re.search(r"\* Axioms:\s*(.*?)\n\s*\n", out + "\n\n", re.S)
+    axioms = m.group(1).strip() if m else "?"
+    ok = rc == 0 and axioms == "<none>" and "type-in-type: <none>" in out and "unsafe (co)fixpoints: <none>" in out and "positivity is assumed: <none>" in out
+    return {"ok": ok, "axioms": axioms, "exit": rc, "tail": out[-600:] if not ok else ""}
+
+
 def build_harness(race=False):
     os.makedirs(BUILD, exist_ok=True)
     hdir = os.path.join(ROOT, "harness")
@@ -320,6 +331,11 @@ def run_check(pid, tier, seed):
         violations.append({"kind": "theorem", "failing_input": False, "broken": "properties/%s.v: %d of %d theorems checked" % (pid, ndis, nobl),
                            "detail": "; ".join(axioms)[-1500:]})
     cov = ev["coverage"]
+    if tier == "thorough" and nobl > 0:
+        chk = run_coqchk(pid)
+        cov["coqchk"] = chk
+        if not chk["ok"]:
+            violations.append({"kind": "coqchk", "failing_input": False, "broken": "coqchk does not accept IceProps.%s without axioms" % pid, "detail": chk["tail"]})
     cov["obligations"] = nobl + tie["obligations"]
     cov["discharged"] = ndis + tie["discharged"]
     cov["theorems"] = names
